@@ -327,7 +327,7 @@ PROPS = {
                        "the history must be linearizable w.r.t. a map of accounts (all attributes). (S) real goroutines mutate auth.NewInternal "
                        "concurrently; the observed history must be linearizable and users.json must parse and equal the model. (B) through a real "
                        "gateway process: create => first request works (and, as root with --chuid/--chgid, files carry the account's uid/gid); "
-                       "secret change => old 403 / new 200; delete => 403; concurrent admin mutations => list-users equals the model. (F) one account through one client, sequentially: the account (role admin) or root changes its secret; header and presigned requests with the current and with replaced secrets have exactly one allowed outcome each. Access keys of the end-to-end layer contain '+' and percent sequences in a third of the cases."),
+                       "secret change => old 403 / new 200; delete => 403; concurrent admin mutations => list-users equals the model. (F) one account through one client, sequentially: the account (role admin) or root changes its secret; header and presigned requests with the current and with replaced secrets have exactly one allowed outcome each. Access keys of the end-to-end layer contain '+' and percent sequences in a third of the cases. (H) lookups answered from the cache, by 1-8 goroutines in real parallel through the real cache and store, while the account gets a new secret, is deleted or created again: once the change is acknowledged and the parallel lookups have ended, a lookup shows the new state. (F) also probes with signed aws-chunked uploads whose chunk signatures are made with the current or with a replaced secret."),
         "level_note": "Authentication probes of the end-to-end part use the Authorization header or a presigned URL. interleavings are explored at the granularity of the service call boundary (before / after effect); ops blocked on locks inside the code are recognised by a 4 ms quiescence rule which can only lengthen recorded intervals (sound). Staleness across different gateway processes is outside the statement.",
         "rule": ("A: (pre-existing keys, <=7 ops, <=24 schedule choices); non-trivial: a lookup overlaps a mutation of the same key in real time or a created "
                  "account has a non-zero uid/gid. S: non-trivial: >= 2 mutations of one key overlap. B: every program is non-trivial (it contains a change followed by use)."),
@@ -335,6 +335,7 @@ PROPS = {
         "jobs": [
             {"run": "TestC17A", "quick": 9000, "thorough": 300000, "shards_quick": 9, "shards_thorough": 16},
             {"run": "TestC17S", "quick": 4000, "thorough": 200000, "shards_quick": 2, "shards_thorough": 16},
+            {"run": "TestC17H", "quick": 600, "thorough": 40000, "shards_quick": 2, "shards_thorough": 8},
             {"run": "TestC17E", "quick": 1600, "thorough": 60000, "shards_quick": 2, "shards_thorough": 16},
             {"run": "TestC17F", "quick": 3200, "thorough": 60000, "shards_quick": 4, "shards_thorough": 16},
             {"run": "TestC17O", "quick": 600, "thorough": 20000, "shards_quick": 1, "shards_thorough": 8},
